@@ -272,9 +272,9 @@ impl StreamDecoder {
         }
         let len = u32::from_be_bytes([b[0], b[1], b[2], b[3]]) as usize;
         if b.len() == 4 {
-            // oversized whatever the id turns out to be: only a handshake (first byte 19) is
-            // exempt from the size limit
-            return len > MAX_FRAME && b[0] != 19;
+            // oversized whatever the id turns out to be: only a handshake is exempt from the size
+            // limit, and a handshake starts with 19 'B' 'i' 't'
+            return len > MAX_FRAME && b[..4] != [19, b'B', b'i', b't'];
         }
         if b[4] == 84 && b[0] == 19 {
             // handshake in progress: a protocol string that already deviates
